@@ -1,0 +1,46 @@
+//go:build verif
+
+package engine
+
+// Contracts for /verif (gvc). Comment-only file; see /verif/DESIGN.md.
+
+//@ prop C14
+
+// Spec from the property: a shard is expired iff its policy is limited (dur != 0) and its whole time span
+// ended strictly more than dur ago.
+//@ spec func expired(end Time, dur int, now Time) bool = dur != 0 && end + dur < now
+
+//@ func (*shard).IsExpired
+//@   requires s != nil && s.durationInfo != nil
+//@   ensures result == expired(s.endTime, s.durationInfo.Duration, now)
+//@   assigns nothing
+
+//@ func (*shard).IsTierExpired
+//@   requires s != nil && s.durationInfo != nil
+//@   ensures result == expired(s.endTime, s.durationInfo.TierDuration, now)
+//@   assigns nothing
+
+//@ func (*EngineImpl).nilShardIsExpired
+//@   ensures result == expired(endTime, duration, now)
+//@   assigns nothing
+
+//@ func iface Shard.IsExpired
+//@   assigns nothing
+//@ func iface Shard.GetIdent
+//@   assigns nothing
+
+// Every identifier appended to the result of ExpiredShards comes from a shard whose own expiry test has
+// just answered true (loaded shard) or from a not-loaded entry for which nilShardIsExpired answered true.
+//@ func (*EngineImpl).ExpiredShards
+//@   ghost okLoaded bool = false
+//@   ghost who Iface = nil
+//@   ghost okNil bool = false
+//@   call .IsExpired
+//@     set okLoaded = ret0
+//@     set who = recv
+//@   call .GetIdent
+//@     requires okLoaded && recv == who
+//@   call (*EngineImpl).nilShardIsExpired
+//@     set okNil = ret0
+//@   call append
+//@     requires okLoaded || okNil
